@@ -2148,6 +2148,7 @@ struct StackDriver : DriverBase<StackDriver<T, N>> {
     }
 };
 
+#if defined(__cpp_exceptions)
 // ================================================================================================ failing element code
 // F8: foreign code that FAILS inside a library call. The element's copy / move constructor throws when a fuse burns
 // down - the k-th element of a copy cannot be made. inplace_vector builds its copies with uninitialized_copy / _move,
@@ -2428,6 +2429,8 @@ struct ThrowDriver : DriverBase<ThrowDriver> {
         return o;
     }
 };
+
+#endif // __cpp_exceptions
 
 // ================================================================================================ emplace arguments
 // emplace(pos, args...), emplace_back(args...), try_emplace_back(args...) construct T(args...) - with parentheses, like
@@ -2727,13 +2730,19 @@ void register_vec_1()
         Scenario s;
         s.family   = "vec";
         s.name     = "inplace_vector<Thrower,4>";
-        s.ops      = ThrowDriver::ops();
         s.props    = {"C03", "C02"};
         s.maxSteps = 30;
-        s.run      = [](Plan const& p, Ctx& c) {
+#if defined(__cpp_exceptions)
+        s.ops = ThrowDriver::ops();
+        s.run = [](Plan const& p, Ctx& c) {
             ThrowDriver d(p, c);
             d.run();
         };
+#else
+        // a build without exceptions has no failing constructors to inject: empty placeholder (same scenario table)
+        s.ops = {{"noop", 1}};
+        s.run = [](Plan const&, Ctx&) { };
+#endif
         registry().push_back(std::move(s));
     }
     {
